@@ -162,47 +162,79 @@ func (v *verifier) body(code []byte, where string) (int, error) {
 	if len(list) > v.info.MaxBody {
 		v.info.MaxBody = len(list)
 	}
-	// abstract interpretation over the CFG
-	stacks := make([][]int, len(list)) // nil = not reached
+	// abstract interpretation in increasing offset order: every jump is
+	// checked to go forward first, so all predecessors of an instruction are
+	// processed before it. The abstract stack is a persistent list (O(1) push /
+	// pop, shared between paths).
+	type cell struct {
+		kind  int
+		next  *cell
+		depth int
+	}
+	depthOf := func(c *cell) int {
+		if c == nil {
+			return 0
+		}
+		return c.depth
+	}
+	states := make([]*cell, len(list))
 	reached := make([]bool, len(list))
-	work := []int{0}
-	stacks[0] = []int{}
 	reached[0] = true
-	flow := func(to int, st []int, from ins) error {
-		if reached[to] {
-			if len(stacks[to]) != len(st) {
-				return fmt.Errorf("%s@%d: stack depth %d on one path and %d on another (edge from @%d)", where, list[to].off, len(stacks[to]), len(st), from.off)
-			}
-			for k := range st {
-				if stacks[to][k] != st[k] {
-					stacks[to][k] = slotAny
-				}
-			}
+	flow := func(to int, st *cell, from ins) error {
+		if !reached[to] {
+			reached[to] = true
+			states[to] = st
 			return nil
 		}
-		reached[to] = true
-		stacks[to] = append([]int(nil), st...)
-		work = append(work, to)
+		if depthOf(states[to]) != depthOf(st) {
+			return fmt.Errorf("%s@%d: stack depth %d on one path and %d on another (edge from @%d)", where, list[to].off, depthOf(states[to]), depthOf(st), from.off)
+		}
+		// merge slot kinds down to the shared tail
+		a, b := states[to], st
+		var diff []int
+		differs := false
+		for a != b {
+			k := a.kind
+			if a.kind != b.kind {
+				k = slotAny
+				differs = true
+			}
+			diff = append(diff, k)
+			a, b = a.next, b.next
+		}
+		if differs {
+			tailc := a
+			for i := len(diff) - 1; i >= 0; i-- {
+				tailc = &cell{diff[i], tailc, depthOf(tailc) + 1}
+			}
+			states[to] = tailc
+		}
 		return nil
 	}
-	for len(work) > 0 {
-		k := work[len(work)-1]
-		work = work[:len(work)-1]
+	for k := 0; k < len(list); k++ {
+		if !reached[k] {
+			return 0, fmt.Errorf("%s@%d: unreachable instruction %s", where, list[k].off, list[k].name)
+		}
 		in := list[k]
-		st := append([]int(nil), stacks[k]...)
+		st := states[k]
+		states[k] = nil
 		pop := func(n int) ([]int, error) {
-			if n > len(st) {
-				return nil, fmt.Errorf("%s@%d: %s pops %d with stack depth %d (underflow)", where, in.off, in.name, n, len(st))
+			if n > depthOf(st) {
+				return nil, fmt.Errorf("%s@%d: %s pops %d with stack depth %d (underflow)", where, in.off, in.name, n, depthOf(st))
 			}
-			top := st[len(st)-n:]
-			st = st[:len(st)-n]
+			top := make([]int, n)
+			for i := n - 1; i >= 0; i-- {
+				top[i] = st.kind
+				st = st.next
+			}
 			return top, nil
 		}
+		push := func(kind int) { st = &cell{kind, st, depthOf(st) + 1} }
 		spec := insTable[in.name]
 		switch in.name {
 		case "OP_RETURN":
-			if len(st) != 1 {
-				return 0, fmt.Errorf("%s@%d: stack depth %d at OP_RETURN (must be exactly 1)", where, in.off, len(st))
+			if depthOf(st) != 1 {
+				return 0, fmt.Errorf("%s@%d: stack depth %d at OP_RETURN (must be exactly 1)", where, in.off, depthOf(st))
 			}
 			if k != len(list)-1 {
 				return 0, fmt.Errorf("%s@%d: OP_RETURN before the end of the code", where, in.off)
@@ -215,12 +247,12 @@ func (v *verifier) body(code []byte, where string) (int, error) {
 				return 0, fmt.Errorf("%s@%d: OP_CONST operand %d is %T, not a value", where, in.off, in.c, c)
 			}
 			if vm.VerifIsThunk(cv) {
-				st = append(st, in.c)
+				push(in.c)
 			} else {
 				if cv.Type == nil {
 					return 0, fmt.Errorf("%s@%d: constant %d has no type", where, in.off, in.c)
 				}
-				st = append(st, slotAny)
+				push(slotAny)
 			}
 		case "OP_LOAD", "OP_OBJ_LOAD":
 			if _, ok := v.p.Pool[in.c].(string); !ok {
@@ -231,7 +263,7 @@ func (v *verifier) body(code []byte, where string) (int, error) {
 					return 0, err
 				}
 			}
-			st = append(st, slotAny)
+			push(slotAny)
 		case "OP_NEW_LIST", "OP_NEW_MAP", "OP_NEW_OBJ":
 			ty, ok := v.p.Pool[in.c].(*types.Type)
 			if !ok || ty == nil {
@@ -254,10 +286,16 @@ func (v *verifier) body(code []byte, where string) (int, error) {
 				}
 				n = len(ty.Obj().Fields)
 			}
-			if _, err := pop(n); err != nil {
+			args, err := pop(n)
+			if err != nil {
 				return 0, err
 			}
-			st = append(st, slotAny)
+			for ai, a := range args {
+				if a != slotAny {
+					return 0, fmt.Errorf("%s@%d: deferred code stored as member %d of a literal", where, in.off, ai)
+				}
+			}
+			push(slotAny)
 		case "OP_CALL_BY_VALUE", "OP_CALL_BY_NEED":
 			fv, ok := v.p.Pool[in.c].(*val.Val)
 			if !ok || fv == nil || fv.Type == nil || fv.Type.Kind != types.KFun {
@@ -294,12 +332,12 @@ func (v *verifier) body(code []byte, where string) (int, error) {
 					}
 				}
 			}
-			st = append(st, slotAny)
+			push(slotAny)
 		case "OP_DYNAMIC_CALL":
 			if _, err := pop(in.b + 1); err != nil {
 				return 0, err
 			}
-			st = append(st, slotAny)
+			push(slotAny)
 		case "OP_IF_TRUE", "OP_JUMP":
 			if spec.pop > 0 {
 				if _, err := pop(spec.pop); err != nil {
@@ -321,26 +359,27 @@ func (v *verifier) body(code []byte, where string) (int, error) {
 				continue
 			}
 		default:
-			if _, err := pop(spec.pop); err != nil {
+			args, err := pop(spec.pop)
+			if err != nil {
 				return 0, err
 			}
+			for ai, a := range args {
+				if a != slotAny {
+					return 0, fmt.Errorf("%s@%d: deferred code used as operand %d of %s", where, in.off, ai, in.name)
+				}
+			}
 			for i := 0; i < spec.push; i++ {
-				st = append(st, slotAny)
+				push(slotAny)
 			}
 		}
-		if len(st) > v.info.MaxDepth {
-			v.info.MaxDepth = len(st)
+		if depthOf(st) > v.info.MaxDepth {
+			v.info.MaxDepth = depthOf(st)
 		}
 		if k+1 >= len(list) {
 			return 0, fmt.Errorf("%s@%d: execution falls off the end of the code", where, in.off)
 		}
 		if err := flow(k+1, st, in); err != nil {
 			return 0, err
-		}
-	}
-	for k := range list {
-		if !reached[k] {
-			return 0, fmt.Errorf("%s@%d: unreachable instruction %s", where, list[k].off, list[k].name)
 		}
 	}
 	return len(list), nil
